@@ -347,8 +347,8 @@ pub fn single_cut_sweep(c: &mut Case) {
 }
 
 pub fn run(ctx: &Ctx, evidence: Option<&PathBuf>) -> i32 {
-    ctx.run_fixed("directed", 300, |c| run_case(c, c.index % 10 == 0, 3));
-    ctx.run_fixed("single-cut-directed", 20, single_cut_sweep);
+    ctx.run_fixed("directed", ctx.dn(300), |c| run_case(c, c.index % 10 == 0, 3));
+    ctx.run_fixed("single-cut-directed", ctx.dn(20), single_cut_sweep);
     let n = ctx.size(60_000, 6_000_000);
     ctx.run_cases("preambles", n, |c| {
         let big = ctx.scale == Scale::Full && c.rng.chance(1, 40);
